@@ -182,6 +182,37 @@ def c05_demand_line():
     return "C05 one declared DEMANDA value changed", len(r["verdicts"]) == 1
 
 
+@case
+def meta_store_set():
+    ev = first_events(need("C18", "meta"), 600, lambda e: e["ev"] == "Meta")
+    # a whole case (three operations) whose last operation is a set_meta; the recorded store gets one more entry
+    k = next(i for i in range(2, len(ev)) if ev[i]["op"]["op"] == "set" and ev[i]["case"] == ev[i - 2]["case"] and ev[i]["i"] == 3)
+    e = json.loads(json.dumps(ev[k]))
+    e["comps"] = e["comps"] + [[e["op"]["k"], e["op"]["v"]]]
+    r = run("Trace_Meta", ev[k - 2:k] + [e], "meta-bad")
+    return "metadata store: set_meta that appends a second entry instead of updating the first", len(r["verdicts"]) == 1
+
+
+@case
+def meta_store_get():
+    ev = first_events(need("C18", "meta"), 600, lambda e: e["ev"] == "Meta")
+    k = next(i for i in range(2, len(ev)) if ev[i]["case"] == ev[i - 2]["case"] and ev[i]["i"] == 3 and len(ev[i]["facs"]) >= 1)
+    e = json.loads(json.dumps(ev[k]))
+    key = e["facs"][0][0]
+    e["fget"][key]["get"] = e["fget"][key]["get"] + "x"
+    r = run("Trace_Meta", ev[k - 2:k] + [e], "meta-get")
+    return "metadata store: get_meta answering something else than the first entry of the key", len(r["verdicts"]) == 1
+
+
+@case
+def c19_location_not_recorded():
+    ev = first_events(need("C19", "configs"), 4000, lambda e: e["obs"]["exit"] == 0 and e["cfg"]["lopt"] == "PENINSULA" and not e["cfg"]["ffile"])
+    e = json.loads(json.dumps(ev[0]))
+    e["obs"]["oc"]["CTE_LOCALIZACION"] = "CANARIAS"
+    r = run("Trace_C19", ev[1:3] + [e], "c19-loc")
+    return "C19 the emitted components state another location than the one given with -l", len(r["verdicts"]) == 1
+
+
 def main():
     vlib.build(cli=True)
     failed = 0
